@@ -85,6 +85,10 @@ def states():
     S.append(('llgr_stale', [ins(P1, 1, BETTER), ins(P2, 1, MID, nh=2), ('restale', False, 1), ('restale', True, 1)]))
     S.append(('llgr_community', [ins(P1, 1, LLGRA), ins(P2, 1, WORSE, nh=2)]))
     S.append(('no_llgr', [ins(P1, 1, NOLLGRA), ins(P1, 2, MID), ins(P2, 1, MID, nh=2), ('restale', False, 1)]))
+    # purges that remove only paths which were not eligible (filtered / next-hop-invalid)
+    S.append(('stale_filtered', [ins(P1, 1, BETTER, filt=True), ins(P1, 2, MID, nhinv=True), ins(P2, 1, MID, nh=2), ('restale', False, 1)]))
+    S.append(('llgr_stale_filtered', [ins(P1, 1, BETTER, filt=True), ins(P1, 2, MID, nhinv=True), ins(P2, 1, MID, nh=2), ('restale', False, 1), ('restale', True, 1)]))
+    S.append(('no_llgr_filtered', [ins(P1, 1, NOLLGRA, filt=True), ins(P1, 1, MID, rpid=1), ins(P1, 2, BOTHA, nhinv=True), ins(P2, 1, MID, nh=2)]))
     S.append(('restarted', [ins(P1, 1, MID), ins(P1, 2, MID, rpid=1), ('restale', False, 1), ins(P1B, 2, TWIN, rpid=0)]))
     S.append(('restarted_replaced', [ins(P1, 1, MID), ins(P1, 2, MID), ('restale', False, 1), ins(P1B, 1, TWIN)]))
     S.append(('deferring', [('startdef',), ins(P1, 1, MID), ins(P2, 1, BETTER, nh=2, filt=True)]))
